@@ -615,9 +615,12 @@ def scanner_facts(prog, roles):
     ps = prog.params(lp)
     spos = [i for i, p in enumerate(ps) if p["id"] == tps[0]["id"]][0]
     outs = [p for p in ps if qtype(p).replace(" ", "") == "int*"]
-    if len(outs) != 1:
+    if len(outs) > 1:
         raise AnalysisBroken("line parser %s: consumed-length out-parameter not identified" % roles.line_parser)
-    outkey = ("*", outs[0]["id"])
+    # two protocols: (status, *consumed) - or the consumed length is the return value and a negative value reports failure
+    outkey = ("*", outs[0]["id"]) if outs else None
+    if not outs and not qtype(lp).split("(")[0].strip() in ("int", "long", "ssize_t"):
+        raise AnalysisBroken("line parser %s: neither an out-parameter nor an integer result carries the consumed length" % roles.line_parser)
     # the filter: callee of the line parser that receives the raw text
     filt = None
     for c in walk(prog.body(lp)):
@@ -636,13 +639,19 @@ def scanner_facts(prog, roles):
         dom = eng.analyse(roles.line_parser, spos, None, prefix)
         rets = []
         for n, env in dom.returns:
-            rets.append((loc_str(n), env.get("$ret", TOP), env.get(outkey, TOP)))
+            rv = env.get("$ret", TOP)
+            if outkey is not None:
+                rets.append((loc_str(n), rv, env.get(outkey, TOP)))
+            elif vmax(rv) < 0:
+                rets.append((loc_str(n), ex(1), TOP))                      # a failing return
+            else:
+                rets.append((loc_str(n), ex(0) if vmin(rv) >= 0 else B01, vmeet(rv, ((0, INF),))))
         return {"filter": fret, "returns": rets}
     facts = {}
     for c0 in classes:
         for c1 in classes:
             facts[(c0, c1)] = query((c0, c1))
-    return {"classes": classes, "facts": facts, "filter": filt[0], "line_parser": roles.line_parser, "out": outs[0]["name"],
+    return {"classes": classes, "facts": facts, "filter": filt[0], "line_parser": roles.line_parser, "out": outs[0]["name"] if outs else "<result>",
             "text": tps[0]["name"], "eng": eng, "query": query}
 
 
@@ -791,6 +800,23 @@ def driver_advance_rule(chk, prog, roles, rule="ADVANCE"):
             cur = a0["referencedDecl"]
         if a0.get("kind") == "UnaryOperator" and a0.get("opcode") == "&" and qtype(strip(kids(a0)[0])) == "int":
             out = strip(kids(a0)[0])["referencedDecl"]
+    decl_of_count = None
+    if out is None:
+        # the consumed length is the call's result: the variable initialised / assigned from the call
+        from .core import walk_with_parents
+        for m, parents in walk_with_parents(loop):
+            if m is call:
+                for p in reversed(parents):
+                    if p.get("kind") == "VarDecl" and qtype(p) in ("int", "long", "ssize_t"):
+                        out = {"id": p["id"], "name": p["name"]}
+                        decl_of_count = p
+                        break
+                    if p.get("kind") == "BinaryOperator" and p.get("opcode") == "=":
+                        l = strip(kids(p)[0], casts=True)
+                        if l.get("kind") == "DeclRefExpr":
+                            out = l["referencedDecl"]
+                            decl_of_count = p
+                        break
     if cur is None or out is None:
         raise AnalysisBroken("%s: text cursor / consumed-length variable of the %s call not identified" % (roles.driver, roles.line_parser))
     raw = loop.get("inner", [])
@@ -837,7 +863,8 @@ def driver_advance_rule(chk, prog, roles, rule="ADVANCE"):
             i = n.get("referencedDecl", {}).get("id")
             if i == cur["id"] and not any(n is m for st, _ in adv for m in walk(st)):
                 others.append(a)
-            if i == out["id"] and not any(n is m for m in walk(call)):
+            if i == out["id"] and not any(n is m for m in walk(call)) and not \
+                    (decl_of_count is not None and any(n is m for m in walk(decl_of_count))):
                 others.append(a)
     chk.require(not others, rule, "%s/no-other-writer" % rule, loc_str(others[0].node) if others else loc_str(loop),
                 "inside the loop the cursor is written only by that statement and the count only by the line parser",
